@@ -118,6 +118,80 @@ def check_ro_batch(ctx, runner, cases, stats, fail_sink):
     return nops
 
 
+KF_SITE_CLASS = {
+    "copy": "kf_c17_fault_copy",
+    "create_append": "kf_c17_fault_create_append",
+    "append": "kf_c17_fault_append",
+}
+
+
+def check_fault_batch(ctx, runner, hists, stats, sink, kf_sink):
+    """operating-system faults at every representation change of every history"""
+    pending = []   # (case, rows, model lines)
+    nruns = 0
+    for h in hists:
+        sites = hb.fault_sites(h)
+        if not sites:
+            continue
+        stats["fault_histories"] += 1
+        for site in sites:
+            at = site[0]
+            stats["fault_sites"] += 1
+            for f in hb.faults_at(site, h):
+                rows, fired, where = hb.run_faulted(h, at, f)
+                nruns += len(h[2])
+                qb = b"" if at == 0 else rows[at - 1][2]
+                if qb is None:
+                    continue
+                v, d = hb.judge_faulted(h, at, f, rows, fired, where, qb)
+                k = "%s:%s" % (where, v)
+                stats["fault_verdicts"][k] = stats["fault_verdicts"].get(k, 0) + 1
+                stats["fault_runs"] += 1
+                if v == "notfired":
+                    continue
+                tk = "%s>%s" % (site[1], site[2])
+                stats["fault_transitions"][tk] = stats["fault_transitions"].get(tk, 0) + 1
+                stats["fault_exc"][f[3]] = stats["fault_exc"].get(f[3], 0) + 1
+                stats["nontrivial"].add(_hist_key([list(h), at, list(f)]))
+                case = (h, at, f)
+                obs = "%s | %s" % (rows[at][0], rows[at][1])
+                if v == "bad" or (v == "weak" and where not in KF_SITE_CLASS):
+                    sink.append((case, (at + 1, "fault", d, obs), where))
+                elif v == "weak":
+                    cls = KF_SITE_CLASS[where]
+                    old = kf_sink.get(cls)
+                    if old is None or len(json.dumps(case)) < len(json.dumps(old[0])):
+                        kf_sink[cls] = (case, (at + 1, "fault", d, obs), where)
+                    stats["fault_kf"][cls] = stats["fault_kf"].get(cls, 0) + 1
+                ml = hb.fault_model_lines(h, at, f)
+                if ml is not None and (f[1] == "ctor" or (where == "copy" and site[3].get(("tmp", "write")) == 1)):
+                    pending.append((case, rows, ml, where))
+    if pending:
+        lines = []
+        for _, _, ml, _ in pending:
+            lines += ml
+        ans = runner.query(lines)
+        i = 0
+        for case, rows, ml, where in pending:
+            d = hb.compare_faulted_model(rows, ans[i:i + len(ml)])
+            i += len(ml)
+            stats["fault_model_compared"] += 1
+            if d is not None:
+                stats["fault_model_disagreements"] += 1
+                sink.append((case, d, where))
+    return nruns
+
+
+def fault_replay_dict(case, d, where):
+    h, at, f = case
+    import waitress.buffers as wb
+    return {"kind": "fault", "limit": h[0], "overflow": h[1], "ops": h[2], "at": at, "fault": list(f), "site": where,
+            "copy_bytes": hb.copy_bytes_for(h, wb.COPY_BYTES), "step": d[0], "against": d[1],
+            "expected": d[2] if d[1] == "model" else "the injected exception propagates and the buffer is still the byte queue it was (for append: possibly plus the appended bytes); len truthful; later operations behave",
+            "observed": d[3] if d[1] == "model" else "%s -- %s" % (d[3], d[2]),
+            "failing_input_found": True}
+
+
 def run(ctx):
     ctx.gate()
     props_ok, failing, log = ctx.props()
@@ -132,7 +206,9 @@ def run(ctx):
     thorough = ctx.tier == "thorough"
     real_limit = wb.STRBUF_LIMIT
     stats = {"transitions": {}, "ops": {}, "outputs": {}, "append_size_vs_limit": {}, "histories": 0,
-             "ro_cases": 0, "ro_filekind": {}, "nontrivial": set(), "model_disagreements": 0}
+             "ro_cases": 0, "ro_filekind": {}, "nontrivial": set(), "model_disagreements": 0,
+             "fault_histories": 0, "fault_sites": 0, "fault_runs": 0, "fault_verdicts": {}, "fault_transitions": {},
+             "fault_exc": {}, "fault_kf": {}, "fault_model_compared": 0, "fault_model_disagreements": 0}
     ob_fail = []
     ro_fail = []
     evaluations = 0
@@ -183,6 +259,25 @@ def run(ctx):
     cases = [hb.gen_ro_case(rng, big=(k % 40 == 0)) for k in range(n_ro)]
     for k in range(0, len(cases), 2000):
         evaluations += check_ro_batch(ctx, runner, cases[k:k + 2000], stats, ro_fail)
+
+    # 5. operating-system faults at every representation change
+    fault_fail = []
+    fault_kf = {}
+    fh = []
+    grid = [(4, 6), (4, 3), (4, 0), (4, 4), (8, 12), (2, 7), (16, 17), (1, 1), (8, 1 << 20)]
+    for (limit, ovf) in grid:
+        for _ in range(150 if thorough else 25):
+            fh.append(hb.gen_history(rng, limit, ovf, rng.randint(2, 14), p_invalid=0.03, p_close=0))
+    for ovf in ((0, 3, 4, 6) if thorough else (3, 6)):
+        fh += list(hb.exhaustive_histories(4, ovf, exh_len, "A"))
+    # the real STRBUF_LIMIT and COPY_BYTES: a spill of ~20 kB
+    for _ in range(6 if thorough else 2):
+        fh.append(hb.gen_history(rng, real_limit, 2 * real_limit + 3616, rng.randint(4, 10), p_invalid=0, p_close=0))
+    for k in range(0, len(fh), 1500):
+        evaluations += check_fault_batch(ctx, runner, fh[k:k + 1500], stats, fault_fail, fault_kf)
+    ctx.oblige("K-buf-fault + search: with an operating-system fault injected at every representation change (file constructors with EMFILE/ENOSPC/EACCES/MemoryError; every call of write/seek/tell/read on the files involved) "
+               "the exception propagates, no queued byte is destroyed, and -- outside the open known-finding site classes -- the buffer is still the same byte queue; constructor and first-copy-write faults agree with the model (step_f)",
+               not fault_fail, "%d failing fault runs" % len(fault_fail))
 
     # -- verdicts
     by_which = {"model": [], "queue": [], "spec": [], "property": [], "machinery": []}
@@ -250,6 +345,21 @@ def run(ctx):
                        {"kind": "ro", "filekind": c[0], "content_hex": c[1], "pos": c[2], "size": c[3], "ops": c[4][:max(0, step - 1)],
                         "step": step, "against": d[1], "expected": d[2], "observed": d[3], "failing_input_found": True})
 
+    seenf = set()
+    for case, d, where in sorted(fault_fail, key=lambda t: len(json.dumps(t[0])))[:40]:
+        key = "fault:%s:%s:%s.%s" % (d[1], where, case[2][0], case[2][1])
+        if key in seenf or len(seenf) >= 4:
+            continue
+        seenf.add(key)
+        h, at, f = case
+        ctx.report(key, "OverflowableBuffer under an injected %s in %s.%s (call %d) at operation %d (%s, site %s): %s" % (
+            f[3], f[0], f[1], f[2], at + 1, h[2][at][0], where, d[2] if d[1] != "model" else "real code and model (step_f) disagree"),
+            fault_replay_dict((tuple([h[0], h[1], h[2][:max(at + 1, d[0])]]), at, f), d, where))
+    for cls, (case, d, where) in sorted(fault_kf.items()):
+        h, at, f = case
+        ctx.report("fault-kf:" + cls, "known finding %s: %s" % (cls, d[2]),
+                   fault_replay_dict((tuple([h[0], h[1], h[2][:at + 1]]), at, f), d, where), kf_class=cls)
+
     if not props_ok and not ctx.violations:
         ctx.report("c17-proof-broken", "Props/C17.v no longer checks (%s); no disagreeing history was found on the real code" % failing,
                    {"failing_input_found": False, "broken": "Props/C17.v via %s" % failing,
@@ -281,6 +391,18 @@ def run(ctx):
         "operation_kinds": stats["ops"],
         "output_kinds": stats["outputs"],
         "append_size_vs_limit": stats["append_size_vs_limit"],
+        "fault_histories_with_a_representation_change": stats["fault_histories"],
+        "fault_sites": stats["fault_sites"],
+        "fault_runs": stats["fault_runs"],
+        "fault_verdicts_by_site": stats["fault_verdicts"],
+        "fault_runs_by_transition": stats["fault_transitions"],
+        "fault_exception_kinds": stats["fault_exc"],
+        "fault_runs_compared_with_model": stats["fault_model_compared"],
+        "fault_known_finding_runs": stats["fault_kf"],
+        "fault_rule": "each history is first run fault-free with every file-object call recorded; for every operation that changes the representation it is re-run once per fault: "
+                      "TemporaryFile() raising EMFILE/ENOSPC/EACCES/MemoryError, BytesIO() raising MemoryError, and the nth call (every n) of write/seek/tell/read on the temporary file (ENOSPC) and on the BytesIO (MemoryError); "
+                      "site = the part of buffers.py in which the exception was raised (ctor, copy = FileBasedBuffer.__init__ loop, create_append = _create_buffer's buf.append(strbuf), append = FileBasedBuffer.append, get, skip); "
+                      "verdict ok = queue intact (or plus the appended bytes) and later operations behave; weak = buffer open, every queued byte still stored, counters right, but position/strbuf wrong; bad = anything else",
     })
 
 
